@@ -33,11 +33,13 @@ pub const RESERVED_NAMES: &[&str] = &[
     "class",
     "const",
     "const_cast",
+    "constant",
     "constexpr",
     "continue",
     "decltype",
     "default",
     "delete",
+    "device",
     "do",
     "dynamic_cast",
     "else",
@@ -75,6 +77,8 @@ pub const RESERVED_NAMES: &[&str] = &[
     "switch",
     "template",
     "this",
+    "thread",
+    "threadgroup",
     "throw",
     "true",
     "try",
